@@ -15,11 +15,19 @@ type Tables struct {
 	Orders             []OrderSpec         `json:"orders"`
 	SchedAllowed       map[string]string   `json:"sched_allowed"`
 	Floors             map[string]int      `json:"floors"`
+	// E6
+	Listeners     []ListenerSpec      `json:"listeners"`
+	MustCall      []MustCallSpec      `json:"must_call"`
+	Pairs         []PairSpec          `json:"pairs"`
+	EmissionLoops []LoopSpec          `json:"emission_loops"`
+	Precede       []PrecedeSpec       `json:"precede"`
+	Termination   TermSpec            `json:"termination"`
+	FuncProps     map[string][]string `json:"func_props"` // function key -> properties that depend on its termination
 }
 
 func LoadTables(dir string) (*Tables, error) {
-	t := &Tables{CommutativeCallees: map[string]string{}, RangeProps: map[string][]string{}, RangeExempt: map[string]string{}, SchedAllowed: map[string]string{}, Floors: map[string]int{}}
-	for _, f := range []string{"e4.json"} {
+	t := &Tables{CommutativeCallees: map[string]string{}, RangeProps: map[string][]string{}, RangeExempt: map[string]string{}, SchedAllowed: map[string]string{}, Floors: map[string]int{}, FuncProps: map[string][]string{}}
+	for _, f := range []string{"e4.json", "e6.json"} {
 		path := filepath.Join(dir, f)
 		if _, err := os.Stat(path); err != nil {
 			continue
